@@ -189,6 +189,22 @@ def instances(formulas, opts=None):
             b1, b2 = sd1.body_at(x, a1), sd2.body_at(x, a2)
             out.append(z3.Implies(z3.And(lo1 == lo2, hi1 == hi2,
                                          z3.Implies(z3.And(lo1 <= x, x < hi1), b1 == b2)), e1 == e2))
+    if opts.get("ext_tail", False) and len(sig_apps) <= 40:
+        # zero tail (split + empty contribution): same lower bound, hi1 <= hi2, bodies agree on [lo, hi1), second body vanishes
+        # on [hi1, hi2)  ==>  equal sums   (Skolemised like extensionality; e.g. a row padded with zeros beyond its length)
+        for (sd1, e1), (sd2, e2) in itertools.permutations(sig_apps, 2):
+            if e1.sort() != e2.sort():
+                continue
+            lo1, hi1, lo2, hi2 = e1.arg(0), e1.arg(1), e2.arg(0), e2.arg(1)
+            if not z3.simplify(lo1 - lo2).eq(z3.IntVal(0)) or z3.simplify(hi1 - hi2).eq(z3.IntVal(0)):
+                continue
+            x = z3.Int(f"tail!{e1.get_id()}!{e2.get_id()}")
+            a1 = [e1.arg(i) for i in range(2, e1.num_args())]
+            a2 = [e2.arg(i) for i in range(2, e2.num_args())]
+            b1, b2 = sd1.body_at(x, a1), sd2.body_at(x, a2)
+            zero = z3.IntVal(0) if z3.is_int(e1) else RV(0)
+            out.append(z3.Implies(z3.And(hi1 <= hi2, z3.Implies(z3.And(lo1 <= x, x < hi1), b1 == b2),
+                                         z3.Implies(z3.And(hi1 <= x, x < hi2), b2 == zero)), e1 == e2))
     return out
 
 
